@@ -18,6 +18,7 @@ possible(S, abstract, t) is uninterpreted (union membership / interface implemen
 import z3
 
 from pyvc import sym
+from pyvc.rec import _has_var
 from pyvc.sym import V, VBool, VInt, VAtom, VObj, VOpaque, Unsupported, sand, sor
 
 TyS = z3.DeclareSort("Ty")
@@ -151,8 +152,13 @@ class TypesTheory:
 
     def saturate(self, it, formulas):
         work = []
+        added = []
         for f in formulas:
-            self.collect(it, f, work, 0)
+            if isinstance(f, tuple):
+                if f[1] <= self.DEPTH:
+                    self.collect(it, f[0], work, f[1])
+            else:
+                self.collect(it, f, work, 0)
         while work:
             name, args, depth = work.pop()
             key = (name,) + tuple(a.get_id() for a in args)
@@ -183,8 +189,10 @@ class TypesTheory:
                     new.append(wf(of_type(args[0])))
             for f in new:
                 it.S.add(f)
+                added.append((f, depth + 1))
                 if depth < self.DEPTH:
                     self.collect(it, f, work, depth + 1)
+        return added
 
     def collect(self, it, f, work, depth):
         stack = [f]
@@ -203,7 +211,7 @@ class TypesTheory:
                 continue
             nm = e.decl().name()
             if nm in ("EqT", "Sub", "Compat", "SameShapeW", "InputTy", "OutputTy", "tkind",
-                      "of_type"):
+                      "of_type") and not _has_var(e):
                 work.append((nm, e.children(), depth))
             stack.extend(e.children())
 
@@ -307,6 +315,13 @@ def install(w):
         return prev_ident(it, a, b, node) if prev_ident else None
     w.identical_ext = identical_ext
 
+    def str_of_ext(it, v, node):
+        if isinstance(v, (VTy, VSchema)):
+            w.trusted_used.add("str()/format of a GraphQL type object is total (its __str__ returns the name)")
+            return True
+        return False
+    w.str_of_ext = str_of_ext
+
     prev_fresh = getattr(w, "fresh_ext", None)
 
     def fresh_ext(it, spec, label):
@@ -362,6 +377,7 @@ def install(w):
         "NonNull": p(nn), "ListTy": p(lst), "NamedTy": p(named), "LeafTy": p(leaf),
         "possible": p(possible),
         "of": lambda it, t: VTy(of_type(t.t)),
+        "ty_rank": lambda it, t: VInt(rank(t.t)),
         "kind_is": lambda it, t, name: VBool(tkind(t.t) == K[name.lit]),
         "abstract_ty": p(lambda t: z3.Or(tkind(t) == K["INTERFACE"], tkind(t) == K["UNION"])),
         "composite_ty": p(lambda t: z3.Or(tkind(t) == K["OBJECT"], tkind(t) == K["INTERFACE"],
